@@ -115,6 +115,27 @@ def shape(u):
     return 'other'
 
 
+# characters whose encoded bytes are troublesome in some codec: JIS X 0213 row 15 (byte 0x2F,
+# '/', in iso2022_jp_2004), Shift_JIS / Big5 / GBK trail bytes 0x5C and 0x7C, plus ordinary
+# Latin, Cyrillic, Greek, CJK, Hangul and non-BMP text
+CODEC_PROBES = ['\u696c', '\ufa37', '\u30bd', '\u80fd', '\u3042', '\u4e2d', '\ud55c', '\u00e9',
+                '\u20ac', '\u044f', '\u03b1', '\u00a5', '\u203e', '\U0001f600', '\u5341', '\u4e00']
+
+
+def all_codecs():
+    import codecs
+    import encodings.aliases
+    names = set(encodings.aliases.aliases.values()) | {'utf_8', 'latin_1', 'ascii'}
+    out = []
+    for n in sorted(names):
+        try:
+            'a'.encode(n)
+        except Exception:
+            continue            # not a text codec (base64, zlib, rot13 ...)
+        out.append(n)
+    return out
+
+
 def jobs(tier, seed):
     js = []
     if tier == 'quick':
@@ -129,6 +150,11 @@ def jobs(tier, seed):
             for j in range(len(UA.SIGMA)):
                 js.append(dict(kind='sigma2', maxlen=5, first=i, second=j))
     js.append(dict(kind='respell'))
+    # every codec the interpreter knows ("any source encoding") x probe characters
+    names = all_codecs()
+    step = 8 if tier == 'quick' else 2
+    for i in range(0, len(names), step):
+        js.append(dict(kind='codecs', names=names[i:i + step], pairs=tier != 'quick'))
     from vt import histfork
     js += histfork.hist_jobs(len(hist_alphabet({})), tier)
     if seed:
@@ -182,6 +208,18 @@ def run_job(job):
                 check_one(u, 'utf-8', res, seen, 'sigma')
             last = t
         res['samples'].append(dict(kind='all strings over %d symbols' % len(A), example=last))
+    elif job['kind'] == 'codecs':
+        probes = list(CODEC_PROBES)
+        if job['pairs']:
+            probes += [a + b for a in CODEC_PROBES for b in CODEC_PROBES]
+        for enc in job['names']:
+            for ch in probes:
+                for u in ('http://h/a%sb' % ch, 'http://h/d/%s/e?q=%s' % (ch, ch),
+                          'http://u%s:p%s@h/' % (ch, ch), 'http://h/?%s=1#%s' % (ch, ch),
+                          'http://h/%s%s/../x' % (ch, ch)):
+                    res['evaluations'] += 1
+                    check_one(u, enc, res, seen, 'codecs')
+        res['samples'].append(dict(kind='codecs x probe characters', codecs=job['names']))
     else:
         for fam in UA.RESPELL_FAMILIES:
             norms = {}
